@@ -15,6 +15,7 @@
  *     ts|tsp|tsl|tspl <h> <link> <rel> <q4>    time = sum_{i<link} N_i/rate_i + (rel+q4/4)/rate_link ; link<0 => raw seconds*1000 in rel
  *     hr <h> <flag> | xl <h1> <h2> | q <h> | tell <h> | clear <h>
  *     fault <h> <kind> <at> <persist> | faultoff <h> | sr <h> <mode> <arg>
+ *     pages <file>  (Pages event: the page table)  |  sklog <0|1>  (seek events carry the offsets of the callback seeks they issued)
  *   end
  */
 #include "common.h"
@@ -54,6 +55,7 @@ typedef struct {
   int f_kind; long f_at; int f_persist; int f_on; int f_fired;
   int noseek, notell;
   int cblog;
+  long skv[48]; int nskv;        /* absolute offsets of the seeks issued during the current API call (first 48) */
 } src_t;
 
 typedef struct { OggVorbis_File vf; src_t src; int live; int opened; file_t *F; long long delivered; } hnd_t;
@@ -96,7 +98,7 @@ static int cb_seek(void *ds,ogg_int64_t off,int whence){
   if(faulty){ s->f_fired++; if(s->cblog){ev_begin("CbSeek");ev_i("off",off);ev_i("wh",whence);ev_i("ret",-1);ev_end();} return -1; }
   long np = whence==SEEK_SET? (long)off : whence==SEEK_CUR? s->pos+(long)off : s->F->len+(long)off;
   if(np<0) { if(s->cblog){ev_begin("CbSeek");ev_i("off",off);ev_i("wh",whence);ev_i("ret",-1);ev_end();} return -1; }
-  s->pos=np;
+  s->pos=np; if(s->nskv<48) s->skv[s->nskv++]=np;
   if(s->cblog){ev_begin("CbSeek");ev_i("off",off);ev_i("wh",whence);ev_i("ret",0);ev_i("pos",s->pos);ev_end();}
   return 0;
 }
@@ -112,7 +114,8 @@ static int cb_close(void *ds){ src_t *s=ds; s->closes++; if(s->cblog){ev_begin("
 /* ---------------- projection of a handle ---------------- */
 static int is_zero(const void *p,size_t n){ const unsigned char *b=p; for(size_t i=0;i<n;i++) if(b[i]) return 0; return 1; }
 static long cb0[MAXH][3];
-static void call_begin(int h){ cb0[h][0]=H[h].src.nread; cb0[h][1]=H[h].src.nseek; cb0[h][2]=H[h].src.ntell; }
+static int g_sklog=0;
+static void call_begin(int h){ H[h].src.nskv=0; cb0[h][0]=H[h].src.nread; cb0[h][1]=H[h].src.nseek; cb0[h][2]=H[h].src.ntell; }
 static void ev_state(int h){
   hnd_t *x=&H[h]; OggVorbis_File *vf=&x->vf;
   ev_i("h",h);
@@ -309,6 +312,14 @@ static void do_readi_inj(int h,long len,int word,int sgned,int be,const char *he
   ev_state(h); ev_end();
 }
 
+/* 1 if the page a page-granularity seek to pos must settle on (the last page of the link's stream whose granule position is below the
+   target) holds nothing but the tail of a packet begun on an earlier page: decoding cannot start there (known finding early_page_landing) */
+static int best_is_lone_tail(file_t *F,long pos){
+  if(!F||pos<0||pos>=F->start[F->nlinks]) return 0;
+  int l=file_link_of_pos(F,pos); long long tg=(long long)pos-F->start[l]+F->gpoff[l]; page_t *best=NULL;
+  for(int j=0;j<F->npages;j++){ page_t *p=&F->pages[j]; if(p->link!=l||p->off<F->dataoff[l]||p->gp<0) continue; if(p->gp<tg) best=p; }
+  return best && best->cont && best->npk==1;
+}
 static void do_seek(int h,const char *cmd,const char *targ){
   hnd_t *x=&H[h]; OggVorbis_File *vf=&x->vf;
   long pos = x->F? resolve(x->F,targ) : atol(targ);
@@ -322,6 +333,8 @@ static void do_seek(int h,const char *cmd,const char *targ){
   else if(!strcmp(cmd,"pspl")){ ret=ov_pcm_seek_page_lap(vf,pos); name="PcmSeekPageLap"; }
   else { ret=ov_raw_seek_lap(vf,pos); name="RawSeekLap"; }
   ev_begin(name); ev_i("pos",pos); ev_s("sym",targ); ev_i("ret",ret); ev_i("t0",t0); ev_i("rs0",rs0); ev_i("cur0",cur0); ev_i("off0",off0);
+  if(!strcmp(cmd,"psp")||!strcmp(cmd,"pspl")) ev_i("bc",best_is_lone_tail(x->F,pos));
+  if(g_sklog){ char t[32]; ev_arr_begin("probes"); for(int k=0;k<x->src.nskv;k++){ snprintf(t,sizeof t,"%ld",x->src.skv[k]); ev_arr_raw(t); } ev_arr_end(); }
   ev_state(h); ev_end();
 }
 
@@ -349,6 +362,7 @@ static void do_tseek(int h,const char *cmd,long link,long rel,long q4){
   else { ret=ov_time_seek_page_lap(vf,sec); name="TimeSeekPageLap"; }
   ev_begin(name); ev_i("link",link); ev_i("rel",rel); ev_i("q4",q4); ev_i("expect",expect); ev_b("inrange",inrange); ev_b("neg",sec<0);
   ev_i("ret",ret); ev_i("t0",t0); ev_i("rs0",rs0); ev_i("cur0",cur0);
+  if((!strcmp(cmd,"tsp")||!strcmp(cmd,"tspl"))&&expect>=0) ev_i("bc",best_is_lone_tail(F,expect));
   ev_state(h); ev_end();
 }
 
@@ -430,6 +444,14 @@ static int run_scenario(int from,int to,const char *name,int budget){
     else if(!strcmp(c,"fault")&&nt>=5){ src_t *s=&H[atoi(tok[1])].src; s->f_kind=atoi(tok[2]); s->f_at=atol(tok[3]); s->f_persist=atoi(tok[4]); s->f_on=1; s->f_fired=0; if(nt>=6&&!strcmp(tok[5],"rel")){ long base=(s->f_kind<=3)?s->nread:(s->f_kind==4?s->nseek:s->ntell); s->f_at+=base; } ev_begin("Fault"); ev_i("h",atoi(tok[1])); ev_i("kind",s->f_kind); ev_i("at",s->f_at); ev_i("persist",s->f_persist); ev_end(); }
     else if(!strcmp(c,"faultoff")&&nt>=2){ src_t *s=&H[atoi(tok[1])].src; s->f_on=0; ev_begin("FaultOff"); ev_i("h",atoi(tok[1])); ev_i("fired",s->f_fired); ev_end(); }
     else if(!strcmp(c,"sr")&&nt>=4){ src_t *s=&H[atoi(tok[1])].src; s->sr_mode=atoi(tok[2]); s->sr_arg=atol(tok[3]); s->sr_rng.s=s->sr_arg*77+5; }
+    else if(!strcmp(c,"sklog")&&nt>=2) g_sklog=atoi(tok[1]);
+    else if(!strcmp(c,"pages")&&nt>=2){ file_t *F=g_files[atoi(tok[1])]; if(F){
+        /* the page table as libogg sees it: offset, length, link (-1: a stream that is not one of the Vorbis links), granule position, continued flag */
+        ev_begin("Pages"); ev_i("f",F->id); ev_i("len",F->len); ev_arr_begin("pg");
+        for(int j=0;j<F->npages&&j<4000;j++){ page_t *q=&F->pages[j]; char t[160]; snprintf(t,sizeof t,"{\"o\":%ld,\"n\":%ld,\"l\":%d,\"g\":%lld,\"c\":%d}",q->off,q->len,q->link,(long long)(q->gp>2000000000LL?2000000000LL:q->gp),q->cont); ev_arr_raw(t); }
+        ev_arr_end();
+        ev_arr_begin("lk"); for(int i=0;i<F->nlinks;i++){ char t[200]; snprintf(t,sizeof t,"{\"doff\":%ld,\"end\":%ld,\"g0\":%lld,\"N\":%ld,\"start\":%ld}",F->dataoff[i],F->lend[i],(long long)F->gpoff[i],F->links[i]->nref,F->start[i]); ev_arr_raw(t); } ev_arr_end();
+        ev_end(); } }
     else if(!strcmp(c,"cblog")&&nt>=2){ g_cblog=atoi(tok[1]); for(int h=0;h<MAXH;h++) H[h].src.cblog=g_cblog; }
     free(ln);
   }
